@@ -167,7 +167,10 @@ PROP = dict(
                  2: "NegativeValues", 6: "other error", 3: "panic", 4: "hang",
                  7: "Ok (genuine f64): exact gap not larger", 8: "Ok (genuine f64): exact gap larger, within the rounding tolerance"},
     trusted_base=[
-        "axioms: none (every theorem of Properties/C14.v is closed under the global context)",
+        "axioms: none for every theorem of Properties/C14.v except C14_f64_rounding_facts and C14_vnbest_f64_terminates, which "
+        "go through Flocq's real-number semantics of binary64 and depend on the standard axioms of Coq's classical reals "
+        "(ClassicalDedekindReals.sig_forall_dec, ClassicalDedekindReals.sig_not_dec, "
+        "FunctionalExtensionality.functional_extensionality_dep, Classical_Prop.classic); Flocq 4.1 itself is trusted as a library",
         "modelled, not verified: i64 overflow of part loads; the allocation of 1 + max id loads",
         "itertools minmax_by_key returns the first minimum and the last maximum (its documented contract; source read); "
         "slice::binary_search_by with a comparator that never answers Equal returns Err(partition point) on a sorted slice",
@@ -179,10 +182,11 @@ PROP = dict(
         "f64 reading of the property: exact arithmetic on the f64 values, gap(out) <= gap(in) + total/2^45 (accumulated "
         "rounding); the strict exact statement is refuted (C14_vnfirst_f64_exact_gap_refuted: one rounding error, 2^-54). "
         "Termination of VnBest on f64 weights: refuted for the loop before fix 98041ea (C14_vnbest_f64_terminates_refuted, "
-        "kept as a regression witness); for the current loop PROVED from monotonic-rounding laws through a lexicographic "
-        "measure (C14_vnbest_terminates_generic; all laws proved for Z, order/rank laws proved for SpecFloat), the ten "
-        "IEEE-754 facts about rounded +/- of f64_rounding_facts being the explicit premise of C14_vnbest_f64_terminates "
-        "(not proved for SpecFloat's SFadd/SFsub); still validated by the f64 stream, a hang is a rejection",
+        "kept as a regression witness); for the current loop PROVED (C14_vnbest_f64_terminates) for finite non-negative "
+        "canonical binary64 weights whose initial part loads are finite: a lexicographic measure under monotonic-rounding "
+        "laws (C14_vnbest_terminates_generic), all of which are proved for SpecFloat -- order/rank laws directly, the ten "
+        "rounding facts (C14_f64_rounding_facts) through Flocq; -0.0 weights and overflowing sums are outside the theorem; "
+        "the f64 stream still treats a hang as a rejection",
         "f64: SpecFloat SFadd/SFsub/SFdiv/SFltb/SFeqb at (53,1024) are the CPU's binary64 operations (validated bit-for-bit "
         "on every genuine-f64 case); rayon's fold/reduce on a 1-thread pool splits the index range once, in the middle",
         "weights are non-negative integers (i64, or f64 holding integers below 2^53) whose sums do not overflow",
